@@ -354,6 +354,9 @@ func runHybridHistory(r *rand.Rand, o hybridOpts, t *Trace) *Case {
 			cfg := &comet.FusionConfig{VectorWeight: 1, TextWeight: 1, K: 60}
 			if r.Intn(2) == 0 {
 				cfg = &comet.FusionConfig{VectorWeight: float64(r.Intn(5)) * 0.5, TextWeight: r.Float64() * 2, K: float64(1 + r.Intn(80))}
+				if r.Intn(5) == 0 {
+					cfg.TextWeight = 0 // boundary: a modality switched off by weight still contributes its ids
+				}
 			}
 			fu, _ := comet.NewFusion(fkinds[fk], cfg)
 			s := h.NewSearch().WithK(k).WithThreshold(thr).WithScoreAggregation(aggs[aggz]).WithCutoff(cutoff).WithNProbes(np).WithFusion(fu)
